@@ -18,7 +18,7 @@ PY
 fi
 for f in $(git ls-files -u | cut -f2 | sort -u); do
   case $f in
-    evidence/*.json) git checkout --theirs -- $f; git add $f;;
+    evidence/*.json|seeded/*/result.json) git checkout --theirs -- $f; git add $f;;
     MANIFEST.json) git checkout --ours -- $f; git add $f;;
     DESIGN.md) python3 tools/resolve_design.py && git add DESIGN.md || echo "UNRESOLVED $f";;
     *) echo "UNRESOLVED $f";;
